@@ -97,3 +97,168 @@ MUTANTS = [
              "    while lo - 1 in indys:\n        lo -= 1\n    while hi + 1 in indys:\n        hi += 1\n    return lo, hi",
          why="get_sig_array_indexes_range returns only the contiguous band around the peak (misses outlying lobes above the threshold)"),
 ]
+
+# ---------------------------------------------------------------------------
+# window mutants (notes/brief_midrange.md): the old code below an arbitrary size threshold, a subtly wrong blocked /
+# streamed / cached variant above it; plus behaviour-preserving blocked refactorings (expect="survive")
+
+_MATRIX_BODY = "    wb_vals = (np.sin(amp_array) / amp_array) ** 4\n" + _MATRIX_TAIL
+_AMP = "    amp_array = band * np.log10(fa_frequencies[:, np.newaxis] / smooth_fa_frequencies[np.newaxis, :])\n"
+
+
+def _direct_with(branch):
+    """calc_smooth_fa_spectrum with `branch` inserted before the 2-d evaluation."""
+    assert _DIRECT_HEAD.count(_AMP) == 1
+    return _DIRECT_HEAD.replace(_AMP, branch + _AMP)
+
+
+def _matrix_with(branch):
+    return branch + _MATRIX_BODY
+
+
+MUTANTS += [
+    dict(id="c07-mid-direct-rowblocks-drop-tail", prop="C07", file="eqsig/fns/frequency.py", old=_DIRECT_HEAD,
+         new=_direct_with(
+             "    if len(fa_frequencies) * len(smooth_fa_frequencies) > 300000:\n"
+             "        amps = abs(fa_spectrum)\n"
+             "        num = np.zeros(len(smooth_fa_frequencies))\n"
+             "        den = np.zeros(len(smooth_fa_frequencies))\n"
+             "        blk = 2048\n"
+             "        for i0 in range(0, max(len(fa_frequencies) - blk + 1, 1), blk):\n"
+             "            x = band * np.log10(fa_frequencies[i0:i0 + blk, np.newaxis] / smooth_fa_frequencies[np.newaxis, :])\n"
+             "            w = np.where(x == 0, 1, (np.sin(x) / x) ** 4)\n"
+             "            num += np.dot(amps[i0:i0 + blk], w)\n"
+             "            den += np.sum(w, axis=0)\n"
+             "        return num / den\n"),
+         why="window: product n_f x m > 3e5 -> accumulation over blocks of 2048 Fourier frequencies; the last partial block is dropped"),
+    dict(id="c07-mid-direct-float32-long", prop="C07", file="eqsig/fns/frequency.py", old=_DIRECT_HEAD,
+         new=_DIRECT_HEAD.replace("    wb_vals /= np.sum(wb_vals, axis=0)\n",
+                                  "    if len(fa_frequencies) > 35000:\n        wb_vals = wb_vals.astype(np.float32)  # halve the memory of long records\n"
+                                  "    wb_vals /= np.sum(wb_vals, axis=0)\n"),
+         why="window: more than 35 000 Fourier frequencies (records > 70 000 samples) -> weights kept and accumulated in float32 (1e-7 relative)"),
+    dict(id="c07-mid-direct-colblocks-seam", prop="C07", file="eqsig/fns/frequency.py", old=_DIRECT_HEAD,
+         new=_direct_with(
+             "    if len(smooth_fa_frequencies) > 1200:\n"
+             "        out = np.zeros(len(smooth_fa_frequencies))\n"
+             "        blk = 500\n"
+             "        for j0 in range(0, len(out), blk):\n"
+             "            j1 = min(j0 + blk, len(out))\n"
+             "            x = band * np.log10(fa_frequencies[:, np.newaxis] / smooth_fa_frequencies[np.newaxis, j0:j1 - 1])\n"
+             "            w = np.where(x == 0, 1, (np.sin(x) / x) ** 4)\n"
+             "            out[j0:j1 - 1] = np.dot(abs(fa_spectrum), w) / np.sum(w, axis=0)\n"
+             "            out[j1 - 1] = out[j1 - 2]\n"
+             "        x = band * np.log10(fa_frequencies / smooth_fa_frequencies[-1])\n"
+             "        w = np.where(x == 0, 1, (np.sin(x) / x) ** 4)\n"
+             "        out[-1] = np.dot(abs(fa_spectrum), w) / np.sum(w)\n"
+             "        return out\n"),
+         why="window: more than 1 200 targets -> blocks of 500 targets; the last target of every block but the final one repeats its "
+             "neighbour (off-by-one at the seam: only columns 499, 999, ... are wrong)"),
+    dict(id="c07-mid-matrix-colblocks-third-block", prop="C07", file="eqsig/fns/frequency.py", old=_MATRIX_BODY,
+         new=_matrix_with(
+             "    if len(smooth_fa_frequencies) > 700:\n"
+             "        out = np.empty((len(fa_frequencies), len(smooth_fa_frequencies)))\n"
+             "        blk = 256\n"
+             "        for k, j0 in enumerate(range(0, out.shape[1], blk)):\n"
+             "            x = amp_array[:, j0:j0 + blk]\n"
+             "            with np.errstate(all='ignore'):\n"
+             "                w = (np.sin(x) / x) ** 4\n"
+             "            w = np.where(x == 0, 1, w) if k < 2 else np.nan_to_num(w)\n"
+             "            out[:, j0:j0 + blk] = w / np.sum(w, axis=0)\n"
+             "        return out\n"),
+         why="window: more than 700 targets -> the matrix is filled in blocks of 256 columns; from the third block on the 0/0 at f == fc "
+             "becomes weight 0 instead of 1 (finite, columns still sum to one)"),
+    dict(id="c07-mid-matrix-rowblocks-seam-product", prop="C07", file="eqsig/fns/frequency.py", old=_MATRIX_BODY,
+         new=_matrix_with(
+             "    if amp_array.size > 15000000:\n"
+             "        out = np.zeros(amp_array.shape)\n"
+             "        blk = 4096\n"
+             "        n = amp_array.shape[0]\n"
+             "        for i0 in range(0, n, blk):\n"
+             "            i1 = n if i0 + blk >= n else i0 + blk - 1\n"
+             "            x = amp_array[i0:i1]\n"
+             "            with np.errstate(all='ignore'):\n"
+             "                out[i0:i1] = np.where(x == 0, 1, (np.sin(x) / x) ** 4)\n"
+             "        out /= np.sum(out, axis=0)\n"
+             "        return out\n"),
+         why="window: product n_f x m > 1.5e7 -> rows filled in blocks of 4096; the last row of every block but the final one is left at "
+             "zero (off-by-one at the seam; columns still non-negative and normalised)"),
+    dict(id="c07-mid-custom-matrix-chunked-dot", prop="C07", file="eqsig/fns/frequency.py",
+         old="    return np.dot(abs(asig.fa_spectrum[1:]), smooth_matrix)",
+         new="    amps = abs(asig.fa_spectrum[1:])\n"
+             "    if len(amps) <= 5000:\n"
+             "        return np.dot(amps, smooth_matrix)\n"
+             "    out = np.zeros(np.shape(smooth_matrix)[1])\n"
+             "    for i0 in range(0, len(amps) - len(amps) % 1000, 1000):\n"
+             "        out += np.dot(amps[i0:i0 + 1000], smooth_matrix[i0:i0 + 1000])\n"
+             "    return out",
+         why="window: more than 5 000 Fourier frequencies (records > 10 000 samples) -> chunked product, the remainder rows are dropped"),
+    dict(id="c07-mid-object-size-keyed-cache", prop="C07", file="eqsig/single.py",
+         old="        if smooth_fa_freqs is not None:\n            self._smooth_fa_freqs = smooth_fa_freqs\n"
+             "        self._smooth_fa_spectrum = calc_smooth_fa_spectrum(self.fa_freqs,",
+         new="        if smooth_fa_freqs is not None:\n            self._smooth_fa_freqs = smooth_fa_freqs\n"
+             "        size = len(self.fa_freqs) * len(self.smooth_fa_freqs)\n"
+             "        key = (len(self.fa_freqs), len(self.smooth_fa_freqs), band)\n"
+             "        if 200000 <= size <= 4000000 and getattr(self, '_smooth_key', None) == key:\n"
+             "            self._cached_smooth_fa = True  # expensive mid-size spectrum: keep it\n"
+             "            return\n"
+             "        self._smooth_key = key\n"
+             "        self._smooth_fa_spectrum = calc_smooth_fa_spectrum(self.fa_freqs,",
+         why="window: 2e5 <= n_f x m <= 4e6 -> the smoothed spectrum is kept as long as the sizes and the band are unchanged: stale after new "
+             "targets of the same length or new values of the same length"),
+    dict(id="c07-mid-alias-chunked-band-lost", prop="C07", file="eqsig/fns/frequency.py",
+         old="    return calc_smooth_fa_spectrum(fa_frequencies, fa_spectrum, smooth_fa_frequencies, band=band)",
+         new="    if smooth_fa_frequencies is None or len(smooth_fa_frequencies) <= 100:\n"
+             "        return calc_smooth_fa_spectrum(fa_frequencies, fa_spectrum, smooth_fa_frequencies, band=band)\n"
+             "    parts = [calc_smooth_fa_spectrum(fa_frequencies, fa_spectrum, smooth_fa_frequencies[:64], band=band)]\n"
+             "    for j0 in range(64, len(smooth_fa_frequencies), 64):\n"
+             "        parts.append(calc_smooth_fa_spectrum(fa_frequencies, fa_spectrum, smooth_fa_frequencies[j0:j0 + 64]))\n"
+             "    return np.concatenate(parts)",
+         why="window: more than 100 targets -> the deprecated alias works in chunks of 64 targets and passes the band to the first chunk only"),
+    dict(id="c07-mid-bandwidth-decimated-search", prop="C07", file="eqsig/im.py",
+         old="    ind2 = np.where(fas1_smooth > lim_fas)\n    min_freq = asig.smooth_fa_frequencies[ind2[0][0]]\n"
+             "    max_freq = asig.smooth_fa_frequencies[ind2[0][-1]]\n    return min_freq, max_freq",
+         new="    ind2 = np.where(fas1_smooth > lim_fas)\n"
+             "    if len(fas1_smooth) > 3000:\n        ind2 = (np.where(fas1_smooth[::2] > lim_fas)[0] * 2,)  # coarse search on long spectra\n"
+             "    min_freq = asig.smooth_fa_frequencies[ind2[0][0]]\n"
+             "    max_freq = asig.smooth_fa_frequencies[ind2[0][-1]]\n    return min_freq, max_freq",
+         why="window: more than 3 000 smoothing frequencies -> calc_bandwidth_freqs searches every other point (limits off by one grid point)"),
+    dict(id="c07-mid-object-long-record-decimated", prop="C07", file="eqsig/single.py",
+         old="        self._smooth_fa_spectrum = calc_smooth_fa_spectrum(self.fa_freqs,\n"
+             "                                                               self.fa_spectrum, self.smooth_fa_freqs, band=band)",
+         new="        if self.npts > 250000:  # very long record: every second Fourier ordinate is plenty for a smoothed spectrum\n"
+             "            self._smooth_fa_spectrum = calc_smooth_fa_spectrum(self.fa_freqs[1::2], self.fa_spectrum[1::2],\n"
+             "                                                               self.smooth_fa_freqs, band=band)\n"
+             "            self._cached_smooth_fa = True\n"
+             "            return\n"
+             "        self._smooth_fa_spectrum = calc_smooth_fa_spectrum(self.fa_freqs,\n"
+             "                                                               self.fa_spectrum, self.smooth_fa_freqs, band=band)",
+         why="window: records longer than 250 000 samples -> the object smooths every second Fourier ordinate only"),
+    # ---- behaviour-preserving blocked refactorings: the mid-range clauses must stay quiet
+    dict(id="c07-mid-ok-direct-rowblocks", prop="C07", file="eqsig/fns/frequency.py", old=_DIRECT_HEAD, expect="survive",
+         new=_direct_with(
+             "    if len(fa_frequencies) * len(smooth_fa_frequencies) > 200000:\n"
+             "        amps = abs(fa_spectrum)\n"
+             "        num = np.zeros(len(smooth_fa_frequencies))\n"
+             "        den = np.zeros(len(smooth_fa_frequencies))\n"
+             "        blk = 3000\n"
+             "        for i0 in range(0, len(fa_frequencies), blk):\n"
+             "            x = band * np.log10(fa_frequencies[i0:i0 + blk, np.newaxis] / smooth_fa_frequencies[np.newaxis, :])\n"
+             "            with np.errstate(all='ignore'):\n"
+             "                w = np.where(x == 0, 1, (np.sin(x) / x) ** 4)\n"
+             "            num += np.dot(amps[i0:i0 + blk], w)\n"
+             "            den += np.sum(w, axis=0)\n"
+             "        return num / den\n"),
+         why="correct accumulation over blocks of 3000 Fourier frequencies above 2e5 pairs (other summation order, BLAS dot): no alarm"),
+    dict(id="c07-mid-ok-matrix-colblocks", prop="C07", file="eqsig/fns/frequency.py", old=_MATRIX_BODY, expect="survive",
+         new=_matrix_with(
+             "    if len(smooth_fa_frequencies) > 300:\n"
+             "        out = np.empty((len(fa_frequencies), len(smooth_fa_frequencies)))\n"
+             "        for j0 in range(0, out.shape[1], 200):\n"
+             "            x = band * (np.log10(fa_frequencies)[:, np.newaxis] - np.log10(smooth_fa_frequencies)[np.newaxis, j0:j0 + 200])\n"
+             "            with np.errstate(all='ignore'):\n"
+             "                w = np.where(x == 0, 1.0, (np.sin(x) / x) ** 4)\n"
+             "            out[:, j0:j0 + 200] = w / np.sum(w, axis=0)\n"
+             "        return out\n"),
+         why="correct column-blocked matrix above 300 targets that evaluates the window argument as b*(log f - log fc) (differs from "
+             "b*log(f/fc) by rounding only: inside the conditioning bound): no alarm"),
+]
